@@ -409,8 +409,8 @@ fn flag(b: bool) -> &'static str { if b { "1" } else { "0" } }
 
 pub fn def_sexp(td: &TableDefinition) -> String {
     let mut s = String::from("(pats");
-    for (name, _, mode) in &td.patterns {
-        s.push_str(&format!(" ({} {})", hexs(name), if *mode == RegexMode::Split { "split" } else { "cap" }));
+    for (name, re, mode) in &td.patterns {
+        s.push_str(&format!(" ({} {} {})", hexs(name), if *mode == RegexMode::Split { "split" } else { "cap" }, hexs(re.as_str())));
     }
     s.push_str(") (cols");
     for c in &td.columns {
@@ -800,7 +800,7 @@ pub fn run_case(run: &mut Run, td: &TableDefinition, def_text: &str, line: &str,
         return;
     }
     if let Some(i) = cut_col {
-        let class = if specs[i].why == "ts-part1-absent" { "ts-month-absent-becomes-january:notnull-row-kept".to_owned() }
+        let class = if specs[i].why == "ts-part1-absent" { "D52:ts-month-absent-becomes-january:notnull-row-kept".to_owned() }
             else { format!("notnull-cut-missed:{}:{}", col_kind(&td.columns[i]), type_name(&td.columns[i].column_type)) };
         run.fail(desc(), &class, format!("column {} is NOT NULL and must be NULL, but the row was kept: {}", i, values_sexp(&row)));
         return;
@@ -812,7 +812,7 @@ pub fn run_case(run: &mut Run, td: &TableDefinition, def_text: &str, line: &str,
     for (i, (c, s)) in td.columns.iter().zip(&specs).enumerate() {
         let ok = same(&row[i], &s.main) || s.alt.as_ref().map(|a| same(&row[i], a)).unwrap_or(false);
         if !ok {
-            let class = if s.why == "ts-part1-absent" && matches!(row[i], Value::Timestamp(_)) { format!("ts-month-absent-becomes-january:{}", col_mod(c)) }
+            let class = if s.why == "ts-part1-absent" && matches!(row[i], Value::Timestamp(_)) { format!("D52:ts-month-absent-becomes-january:{}", col_mod(c)) }
                 else { format!("{}:{}:{}:{}", col_kind(c), type_name(&c.column_type), col_mod(c), s.why) };
             run.fail(desc(), &class, format!("column {}: got {}, the property demands {}{}", i, value_sexp(&row[i]), value_sexp(&s.main), s.alt.as_ref().map(|a| format!(" (or {})", value_sexp(a))).unwrap_or_default()));
         }
@@ -1208,6 +1208,11 @@ pub fn json_sweep(run: &mut Run, rng: &mut Rng) {
 /// hand-written definitions from the README / documentation shapes, with boundary lines
 pub fn fixed_cases(run: &mut Run) {
     let cases: &[(&str, &[&str])] = &[
+        // D52 regression corpus: a month part that did not take part must not become January
+        ("CREATE TABLE t (line = '(\\\\d+)/(\\\\w+)?/(\\\\d+)', line[3], line[2], line[1] => ts TIMESTAMP);", &["05//2020", "05/Feb/2020"]),
+        ("CREATE TABLE t (q2 = '^(\\\\S+)(?: (\\\\S+))?(?: (\\\\S+))?$', q2[1], q2[2] => c1 TIMESTAMP MICROSECONDS, q2[1], q2[2] => c2 TIMESTAMP DEFAULT NULL);", &["2008", "2008 3", "2008 13"]),
+        ("CREATE TABLE t (a = '^(\\\\S+) (\\\\S+)$', b = '^(\\\\d+)$', a[1], b[1] => c0 TIMESTAMP, a[2] => c1 INT);", &["2020 5", "2020"]),
+        ("CREATE TABLE t (e = '^(.*)$', e[1], e[2] => c4 TIMESTAMP NOT NULL, e[1] => c1 INT);", &["2017", ""]),
         ("CREATE TABLE t (line = '(\\\\d+)-(\\\\d+)-(\\\\d+)', line[1], line[2], line[3] => ts TIMESTAMP);",
          &["2020-01-05", "2020-4294967297-05", "2020-13-05", "2020-02-30", "2020-02-29", "2021-02-29", "2147483648-01-01", "262142-12-31", "262143-01-01", "0-1-1", "x", ""]),
         ("CREATE TABLE t (line = '(\\\\d+)-(\\\\d+)-(\\\\d+) (\\\\d+):(\\\\d+):(\\\\d+)\\\\.(\\\\d+)', line[1], line[2], line[3], line[4], line[5], line[6], line[7] => ts TIMESTAMP);",
